@@ -488,3 +488,38 @@ func (c *Corpus) PickPattern(rng *rand.Rand, fromName bool) string {
 	}
 	return "ab"
 }
+
+// PickSymbolPattern returns text taken from a symbol section: the whole section, a prefix, a
+// suffix or an inner part (so that matches end exactly at, or just inside, section bounds), or
+// a text straddling a section boundary (must not match as a symbol).
+func (c *Corpus) PickSymbolPattern(rng *rand.Rand) string {
+	for try := 0; try < 20; try++ {
+		d := c.Docs[rng.Intn(len(c.Docs))]
+		syms := d.EffectiveSyms()
+		if len(syms) == 0 {
+			continue
+		}
+		rs := []rune(d.Effective())
+		s := syms[rng.Intn(len(syms))]
+		a, b := s[0], s[1]
+		switch rng.Intn(6) {
+		case 0, 1:
+		case 2:
+			b = a + 1 + rng.Intn(b-a)
+		case 3:
+			a = b - 1 - rng.Intn(b-a)
+		case 4:
+			if b < len(rs) {
+				b++ // one rune past the section
+			}
+		case 5:
+			if a > 0 {
+				a--
+			}
+		}
+		if a < b {
+			return string(rs[a:b])
+		}
+	}
+	return c.PickPattern(rng, false)
+}
